@@ -71,6 +71,7 @@ type runStat struct {
 	PoolEvals    int            `json:"poolEvaluations"`
 	WideWindows  int            `json:"windowsBeyond32Bits"` // candidates with ref + exp >= 2^32
 	Restarts     int            `json:"restarts"`
+	LateFirst    int            `json:"lookedUpBeforeLateInclusion"`
 	AdoptRefuse  int            `json:"adoptRefused"`
 	DupRecent    int            `json:"dupChecksRecentPath"`  // candidates re-including a tx, parent - ref < 100
 	DupIndexed   int            `json:"dupChecksIndexedPath"` // ... parent - ref >= 100
@@ -568,6 +569,20 @@ func (r *run) phase(parents []*blk, rounds int, far bool) {
 					funded = append(funded, t)
 				}
 			}
+		}
+		if far && p.num >= 101 && r.rng.Intn(4) == 0 {
+			// A tx whose block ref lies >= 100 blocks below is looked up BEFORE it is ever included (pool rule, packer,
+			// consensus - all through the index path), then included, then looked up and offered again on top of its own
+			// block: same repository objects throughout, no restart in between. A lookup must not change a later answer.
+			u := r.newTx(uint32(r.rng.Intn(int(p.num-100))), 1000, nil, true, r.rng.Intn(3) == 0)
+			r.lookups([]*blk{p})
+			if n := r.candidate(p, "late-first-inclusion", []*txr{u}); n != nil {
+				r.lookups([]*blk{n, p})
+				r.candidate(n, "late-reinclusion", []*txr{u})
+				r.candidate(n, "late-reinclusion", []*txr{r.newTx(n.num+1, 1000, nil, true, false), u})
+				r.st.LateFirst++
+			}
+			continue
 		}
 		c := r.rng.Intn(20)
 		if far && r.rng.Intn(100) < 60 {
